@@ -20,7 +20,7 @@ GLOBAL_ASSUMPTIONS = [
     'rustc/LLVM and the Rust standard library are correct',
     'Verus 0.2026.09.13 + Z3: machine integers are bounded (overflow is an obligation, not mathematical); vstd specifications of Vec, slices, Option, Result, checked_* are trusted',
     'Kani 0.68 + CBMC 6.11: bit-precise semantics incl. IEEE floats; Kani model of alloc; 64-bit usize',
-    'extraction rules R1-R6 of tools/extract.py preserve meaning (visibility, get_unchecked->index with the index obligation, attribute/doc removal, named returns)',
+    'extraction rules R1-R7 of tools/extract.py preserve meaning (visibility, get_unchecked->index with the index obligation, attribute/doc removal, named returns, associated types of a trait impl replaced by their definitions in that impl)',
     'composition of the functions under contract with the unverified surroundings listed in unverified_surroundings',
 ]
 
